@@ -141,8 +141,8 @@ def run(chk):
     probe = Proc([common.build_probe()])
     mos = common.build_mos()
     thorough = chk.tier == "thorough"
-    n = 250 if thorough else 40
-    per_program = 40 if thorough else 14
+    n = 250 if thorough else 24
+    per_program = 40 if thorough else 11
     workdir = os.path.join(common.CACHE, "work")
     os.makedirs(workdir, exist_ok=True)
     stats = {"programs": 0, "discarded": 0, "occurrences_asked": 0, "offered": 0, "not_offered": 0, "renames": 0, "offered_but_null": 0,
